@@ -19,7 +19,7 @@ CHECKS = {
                 text='TLC visits every interleaving of <=K requests (incl. requests and late callbacks after termination) with the program family; every behaviour of the K=2 graph (K=3 thorough) is replayed into the real code with state/outcome compared after each action.',
                 ref='5 C01', note=CORE_NOTE),
     'C02': dict(engine='ProcessCore', technique='TLA+ ProcessCore/ProcessProps, TLC exhaustive (C02_* invariants) + replay of all TLC behaviours, accessor families compared',
-                text='Agreement of future/result/successful/killed_msg/exception, single terminal notification, cleanup once, closed, stepping task returned: invariants over every reachable state; the real accessors are read after every replayed action.',
+                text='Agreement of future/result/successful/killed_msg/exception, single terminal notification, cleanup once, closed, stepping task returned: invariants over every reachable state; the real accessors are read after every replayed action. Includes the stepping task cancelled by its owner while parked at the pause gate (EnvTaskCancel), then kill/fail/play/resume.',
                 ref='5 C02', note=CORE_NOTE),
     'C03': dict(engine='ProcessCore', category='fault_enumeration',
                 technique='TLA+ ProcessFaults (fault plans + lockstep twin), TLC exhaustive over hook x occurrence x scenario, every faulty behaviour replayed into the real Process',
@@ -41,7 +41,7 @@ CHECKS = {
                 text='Every state entry and paused point of every program and sampled outline, the terminated process, and a process whose future was cancelled, is a save point; default, custom and alternating object loaders through one shared load context; checkpoints also kept by the two persisters with the instance abandoned later; bundle -> medium -> unbundle -> bundle compared key by key; loaded process accessors compared with the original and with the specification state after Restore.',
                 ref='5 C07', note=CORE_NOTE + ' TLA+ does not model pickle/YAML: medium fidelity is established only for the bundles of the enumerated points.'),
     'C08': dict(engine='ProcessCore+Outline', technique='TLA+ ProcessCore save/restore actions (C08_Equivalent vs reference run) + Outline CrashRestore (C09_Finished under crash sets), TLC exhaustive + replay with real Bundle/unbundle in fresh loops',
-                text='Every placement of <=K save/restore/resume actions and checkpoints at the k-th state entry for process programs; every crash set of <=M unit boundaries for every (outline, oracle); executed steps, outputs, ctx trace, final state and result equal the uninterrupted run.',
+                text='Every placement of <=K save/restore/resume actions and checkpoints at the k-th state entry for process programs; every crash set of <=M unit boundaries for every (outline, oracle), the instance abandoned 0-2 units after the checkpoint and the same checkpoint loaded up to three times in a row (Outline Lag/Reloads); executed steps, outputs, ctx trace, final state and result equal the uninterrupted run.',
                 ref='5 C08', note=CORE_NOTE),
     'C09': dict(engine='Outline', technique='TLA+ Outline: stepper tree small-step (mirrors workchains.py) refines BigStep structured semantics, TLC on every outline x oracle; each instance run on a generated real WorkChain',
                 text='Every outline with <=N nodes nested <=D x every predicate oracle x steps that hand an awaitable to the context (by to_context or in the returned ToContext) and return any value; ordered call trace per RUNNING state, which units end in a Wait, and result() equal the TLA+ values.',
